@@ -58,7 +58,8 @@ def make_network(cx, stations, constraint=None, snap=None, sim_ref=None, network
                 snap.rows.append(dict(t=s.iteration, nhist=len(s.event_history),
                                       conn={sid: (self_inner.get_ev(sid).session_id if self_inner.get_ev(sid) is not None else None) for sid in self_inner.station_ids}))
 
-    net = RecNet(**(tolerances or {}))
+    # without a snapshot recorder the plain (importable, hence JSON-loadable) class is used
+    net = (RecNet if snap is not None else base)(**(tolerances or {}))
     for sid, kind, V, ph in stations:
         net.register_evse(make_evse(sid, kind), V, ph)
     if constraint is not None:
